@@ -220,6 +220,18 @@ class PandasModelBase(
         res = numpy.maximum(res, 1)
         return res
 
+    def _concat_strings(self, a, b):
+        # concatenate as strings; a missing value on either side gives a missing result
+        # (not the text "None" / "nan"), as string concatenation does in SQL and Polars
+        res = numpy.char.add(numpy.asarray(a, dtype=str), numpy.asarray(b, dtype=str))
+        missing = numpy.logical_or(self.pd.isnull(a), self.pd.isnull(b))
+        if numpy.any(missing):
+            res = numpy.asarray(res, dtype=object)
+            if res.ndim == 0:
+                return None
+            res[numpy.broadcast_to(missing, res.shape)] = None
+        return res
+
     def _coalesce(self, a, b):
         a_is_series = isinstance(a, self.pd.Series)
         b_is_series = isinstance(b, self.pd.Series)
@@ -320,9 +332,7 @@ class PandasModelBase(
             "is_null": self.isnull,
             "is_bad": self.bad_column_positions,
             "is_in": _type_safe_is_in,
-            "concat": lambda a, b: numpy.char.add(
-                numpy.asarray(a, dtype=str), numpy.asarray(b, dtype=str)
-            ),
+            "concat": lambda a, b: self._concat_strings(a, b),
             "coalesce": lambda a, b: self._coalesce(a, b),  # assuming Pandas series
             "connected_components": lambda a, b: data_algebra.connected_components.connected_components(
                 a, b
